@@ -417,13 +417,15 @@ def check_class(run, repo, eff, fr, ci, fams, encs):
                 st = [e for e in evs if e.kind == 'RegWrite' and e.d['idx'] == ('field', 'd')]
                 got = set()
                 for e in st:
-                    v = N(e.d['value'], asg)
-                    p = guard_has(e.guards, is_pass, True)
-                    q = guard_has(e.guards, is_pass, False)
-                    if (p and v == const(0)) or (q and v == const(1)):
-                        got.add(v)
-                    else:
-                        bad('C02-X', 'status value', 'R[d] := %s on the %s side (0 = stored, 1 = not stored)' % (fmt(v), 'pass' if p else 'fail' if q else 'unconditional'))
+                    # the status may be written once with a conditional value: judge every leaf under its conditions
+                    for v, g in split_ite(N(e.d['value'], asg), tuple(e.guards)):
+                        p = guard_has(g.guards, is_pass, True)
+                        q = guard_has(g.guards, is_pass, False)
+                        if (p and v == const(0)) or (q and v == const(1)):
+                            got.add(v)
+                        else:
+                            bad('C02-X', 'status value', 'R[d] := %s on the %s side (0 = stored, 1 = not stored)' % (
+                                fmt(v), 'pass' if p else 'fail' if q else 'unconditional'))
                 if got != {const(0), const(1)}:
                     bad('C02-X', 'status register', 'R[d] must be 0 when the store was performed and 1 otherwise')
         # load to PC
